@@ -147,4 +147,19 @@ theorem C06_source_roundtrip_blocked (D : Dumps) (L : Loads) (ms : List Msg) (hm
       (by omega) hr
     simpa using this
 
+/-- C07 for the BLOCKED readers as translated, over ANY bytes (fuel above the file's length): they always return — a
+    record / a message, end of data, or the library's error -/
+theorem C07_source_blocked_readers_total (L : Loads) (hL : ∀ r, (∃ d, L r = .ok d) ∨ L r = .dataError)
+    (ffuel recno : Nat) (last : Option Bytes) (buf rest : Bytes) (hf : rest.length < ffuel) :
+    (∃ sig, Src.VbsReaderB_next ffuel (recno : Int) (last.getD []) buf rest = .ok sig) ∧
+    (∃ sig, Src.IpmReaderB_next ffuel L (recno : Int) (last.getD []) buf rest = .ok sig) := by
+  refine ⟨⟨_, readerB_next_eq ffuel recno last buf rest hf⟩, ?_⟩
+  rw [ipm_nextB_eq ffuel L recno last buf rest hf]
+  cases hn : next (unblockSrc 1012) Gen.maxVbsRecordLength ⟨⟨rest, buf⟩, recno, last⟩ with
+  | record r st =>
+    rcases hL r with ⟨d, hd⟩ | hd
+    · simp only [hd]; exact ⟨_, rfl⟩
+    · simp only [hd]; exact ⟨_, rfl⟩
+  | done e => cases e <;> exact ⟨_, rfl⟩
+
 end Cardutil.SrcTie
